@@ -184,6 +184,10 @@ func (g *G) ts() uint32 {
 // encOffSig: expires ‖ transient type ‖ transient key ‖ signature by the identity key.
 func (g *G) encOffSig(id *signer, transient *signer, forge string) []byte {
 	signed := cat(u32(g.ts()|1), u16(transient.typ), transient.pub)
+	if forge == "zero-expires" { // structurally invalid block (expires = 0) that the transient key vouches for itself
+		signed = cat(u32(0), u16(transient.typ), transient.pub)
+		forge = "self"
+	}
 	var sig []byte
 	switch forge {
 	case "":
@@ -367,6 +371,14 @@ func genSignedStructs(g *G, count int) {
 			g.valid = true
 			id, tr, forge = g.newIdentity(7, 4, false, nil), g.newSigner([]int{0, 2, 1, 11}[i-8]), ""
 		}
+		// forged offline blocks under a destination whose key type the offline check does not implement (ECDSA P-256)
+		// and blocks that are structurally invalid (expires = 0): an ERROR from the offline check must fail
+		// verification just as a negative answer does
+		forgedOther := i >= 12 && i < 16
+		if forgedOther {
+			g.valid = true
+			id, tr, forge = g.newIdentity([]int{1, 1, 7, 7}[i-12], 4, false, nil), g.newSigner(7), []string{"self", "other", "zero-expires", "zero-expires"}[i-12]
+		}
 		body, sg := g.encLS2Body(id, tr, forge)
 		for _, c := range g.adversary([]byte{3}, body, sg, id.sg) {
 			g.gen = "ls2-" + c.tag + "-off:" + offTag(tr, forge)
@@ -383,6 +395,9 @@ func genSignedStructs(g *G, count int) {
 		}
 		if forced {
 			id, tr, forge = g.newIdentity(7, 4, false, nil), g.newSigner(7), forcedForge
+		}
+		if forgedOther {
+			id, tr, forge = g.newIdentity([]int{1, 1, 7, 7}[i-12], 4, false, nil), g.newSigner(7), []string{"self", "other", "zero-expires", "zero-expires"}[i-12]
 		}
 		flags := r.pick(0, 0, 2)
 		sg = id.sg
@@ -421,6 +436,9 @@ func genSignedStructs(g *G, count int) {
 		}
 		if forced {
 			bl, tr, forge = g.newSigner(7), g.newSigner(7), forcedForge
+		}
+		if forgedOther {
+			bl, tr, forge = g.newSigner([]int{1, 1, 7, 11}[i-12]), g.newSigner(7), []string{"self", "other", "zero-expires", "zero-expires"}[i-12]
 		}
 		sg = bl
 		eexp := r.pick(1, 600, 65535, 0)
